@@ -126,7 +126,7 @@ def gen_case(rnd, prop, tier):
     n_est = 0
     for _ in range(rnd.randint(2, 6)):
         if n_est > 0 and rnd.random() < 0.25:
-            if prop == 'C08' and rnd.random() < 0.6:
+            if prop in ('C08', 'C13') and rnd.random() < (0.6 if prop == 'C08' else 0.4):
                 ops.append(['SYNTH', rnd.randrange(n_est), rnd.choice([1, 7, 60, 300]), rnd.choice(['round', 'round', 'sample'])])
             else:
                 ops.append(['QUERY', rnd.randrange(n_est), rnd.sample(attrs, rnd.randint(1, min(3, n)))])
@@ -504,7 +504,8 @@ def run_case(case, prop):
                 faults['model-used-for-synthetic-data'] = faults.get('model-used-for-synthetic-data', 0) + 1
                 seq.append(('S', op[3]))
                 steps += 1
-                check_coherent(mbi, m, case, 'model of EST #%d re-checked after synthetic_data(rows=%d, method=%s)' % (op[1] + 1, op[2], op[3]), 'after-synthetic_data', viol, probes)
+                if prop == 'C08':
+                    check_coherent(mbi, m, case, 'model of EST #%d re-checked after synthetic_data(rows=%d, method=%s)' % (op[1] + 1, op[2], op[3]), 'after-synthetic_data', viol, probes)
         elif op[0] == 'QUERY':
             if op[1] < len(returned):
                 m = returned[op[1]][0]
